@@ -112,3 +112,16 @@ impl Program {
         )
     }
 }
+
+#[cfg(ae9rb_basic_lang_verif)]
+impl Program {
+    /// Verification hook: (link, direct_address, indirect errors, direct errors).
+    pub fn verif_parts(&self) -> (&Link, Address, Vec<Error>, Vec<Error>) {
+        (
+            &self.link,
+            self.direct_address,
+            self.indirect_errors.to_vec(),
+            self.errors.to_vec(),
+        )
+    }
+}
